@@ -300,3 +300,76 @@ Qed.
 Lemma Q_qe_drop : forall W ops rf c fd o w, QINV (RQ W ops (QE c fd o) rf) w -> QINV (RQ W ops QNone rf) w.
 Proof. intros W ops rf c fd o w HI. eapply (Q_xa_drop et W ops (QE c fd o)); [intros c0 []|discriminate|exact HI]. Qed.
 
+
+Lemma st_wsetc_et : forall w c c', l_et (st (wsetc w c c')) = l_et (st w).
+Proof. reflexivity. Qed.
+
+(* the common tail of both loops after the kernel took part of the data or said EAGAIN:
+   the rest is appended to the outbound buffer and, level-triggered, write interest requested *)
+Lemma loop_tail : forall W ops rf cid fd o (b : bool) n out w1 r w',
+  l_et (st w1) = b -> (b = true -> o = true) ->
+  QINV (RQ W ops (QE cid fd o) rf) w1 ->
+  (if b then ((n, true), wsetc w1 cid (c_set_out (wc w1 cid) out))
+   else let '(r3, w3) := epctl "mod" fd true b (wsetc w1 cid (c_set_out (wc w1 cid) out)) in
+        ((n, match r3 with RNil => true | _ => false end), w3)) = (r, w') ->
+  exists xa, okx xa cid /\ (snd r = true -> xa = QNone) /\ QINV (RQ W ops xa rf) w'.
+Proof.
+  intros W ops rf cid fd o b n out w1 r w' Hb Ho H1 E. destruct b.
+  - inversion E; subst. exists QNone. split; [apply okx_none|]. split; [auto|].
+    rewrite (Ho eq_refl) in H1. eapply Q_fill_et; eauto.
+  - destruct (epctl "mod" _ true false _) as [r3 w3] eqn:E3. inversion E; subst.
+    pose proof (Q_fill_x _ _ _ _ _ _ out _ H1) as H2.
+    assert (Hop : op_code "mod" <> 2) by (cbn; discriminate).
+    pose proof (Q_arm_x W ops rf cid fd "mod" false _ _ _ Hop Hb H2 E3) as H3.
+    destruct r3.
+    + exists QNone. split; [apply okx_none|]. split; [auto|exact H3].
+    + exists (QXf cid fd). split; [apply okx_xf|]. split; [discriminate|exact H3].
+    + exists (QXf cid fd). split; [apply okx_xf|]. split; [discriminate|exact H3].
+    + exists (QXf cid fd). split; [apply okx_xf|]. split; [discriminate|exact H3].
+Qed.
+
+Lemma conn_write_loop_S : forall f, MQ f -> forall cid d n w r w' W ops rf fd o,
+  QINV (RQ W ops (QE cid fd o) rf) w -> conn_write_loop (S f) cid d n w = (r, w') ->
+  exists xa, okx xa cid /\ (snd r = true -> xa = QNone) /\ QINV (RQ W ops xa rf) w'.
+Proof.
+  intros f M cid d n w r w' W ops rf fd0 o HI0 E. cbn [conn_write_loop] in E.
+  pose proof (Q_reanchor _ _ _ _ _ _ _ HI0) as HI. clear HI0. set (fd := c_fd (wc w cid)) in *.
+  destruct (sys_wr cid _ d true w) as [k w1] eqn:Es.
+  pose proof (Q_sys_wr_E _ _ _ _ _ _ _ _ _ _ _ _ _ HI Es) as H1.
+  pose proof (sys_wr_et _ _ _ _ _ _ _ Es) as Hm1.
+  destruct k as [sent extra|e|].
+  - destruct H1 as [Hn H1].
+    destruct (zdrop sent d) as [|b0 l0] eqn:Ed.
+    { inversion E; subst. exists QNone. split; [apply okx_none|]. split; [auto|]. eapply Q_qe_drop; exact H1. }
+    rewrite <- Ed in *.
+    destruct (l_et (st w)) eqn:Eb; [eapply (mq_wloop _ M); eauto|].
+    eapply (loop_tail W ops rf cid fd false false n _ w1); [congruence|discriminate|exact H1|exact E].
+  - destruct (is_eagain e).
+    + eapply (loop_tail W ops rf cid fd true (l_et (st w)) n _ w1); [exact Hm1|auto|exact H1|].
+      destruct (l_et (st w)); exact E.
+    + inversion E; subst. exists QNone. split; [apply okx_none|]. split; [auto|]. eapply Q_qe_drop; exact H1.
+  - inversion E; subst. exists QNone. split; [apply okx_none|]. split; [auto|]. apply Q_dead. exact H1.
+Qed.
+
+Lemma conn_writev_loop_S : forall f, MQ f -> forall cid sg n w r w' W ops rf fd o,
+  QINV (RQ W ops (QE cid fd o) rf) w -> conn_writev_loop (S f) cid sg n w = (r, w') ->
+  exists xa, okx xa cid /\ (snd r = true -> xa = QNone) /\ QINV (RQ W ops xa rf) w'.
+Proof.
+  intros f M cid sg n w r w' W ops rf fd0 o HI0 E. cbn [conn_writev_loop] in E.
+  pose proof (Q_reanchor _ _ _ _ _ _ _ HI0) as HI. clear HI0. set (fd := c_fd (wc w cid)) in *.
+  destruct (sys_wr cid _ _ true w) as [k w1] eqn:Es.
+  pose proof (Q_sys_wr_E _ _ _ _ _ _ _ _ _ _ _ _ _ HI Es) as H1.
+  pose proof (sys_wr_et _ _ _ _ _ _ _ Es) as Hm1.
+  destruct k as [sent extra|e|].
+  - destruct H1 as [Hn H1].
+    destruct (List.concat (drop_sent sent sg)) as [|b0 l0] eqn:Ed.
+    { inversion E; subst. exists QNone. split; [apply okx_none|]. split; [auto|]. eapply Q_qe_drop; exact H1. }
+    rewrite <- Ed in *.
+    destruct (l_et (st w)) eqn:Eb; [eapply (mq_wvloop _ M); eauto|].
+    eapply (loop_tail W ops rf cid fd false false n _ w1); [congruence|discriminate|exact H1|exact E].
+  - destruct (is_eagain e).
+    + eapply (loop_tail W ops rf cid fd true (l_et (st w)) n _ w1); [exact Hm1|auto|exact H1|].
+      destruct (l_et (st w)); exact E.
+    + inversion E; subst. exists QNone. split; [apply okx_none|]. split; [auto|]. eapply Q_qe_drop; exact H1.
+  - inversion E; subst. exists QNone. split; [apply okx_none|]. split; [auto|]. apply Q_dead. exact H1.
+Qed.
